@@ -4,7 +4,7 @@
 # `jobs` at a time, and writes seeded/KILL_MATRIX.md.
 tier="${1:-quick}"; jobs="${2:-3}"
 cd "$(dirname "$0")/.."
-declare -A EXTRA=( [C17-2]="C15" [C20-2]="C15" [C01-2]="C03" [C03-1]="C01" [C06-2]="C10" [C10-1]="C06" [C02-2]="C01" [C05-1]="C02" [C05-2]="C02" [C02-1]="C05" [C01-3]="C09 C12" [C17-4]="C20" [C20-4]="C17" [C09-3]="C08" [C12-4]="C08" )
+declare -A EXTRA=( [C17-2]="C15" [C20-2]="C15" [C01-2]="C03" [C03-1]="C01" [C06-2]="C10" [C10-1]="C06" [C02-2]="C01" [C05-1]="C02" [C05-2]="C02" [C02-1]="C05" [C01-3]="C09 C12" [C17-4]="C20" [C20-4]="C17" [C09-3]="C08" [C12-4]="C08" [C10-7]="C08" [C08-6]="C12" [C09-7]="C17" [C19-6]="C14" [C20-7]="C15" )
 tmp=$(mktemp -d /tmp/km.XXXXXX)
 list=()
 for d in seeded/C*-*/; do
@@ -28,7 +28,8 @@ out=seeded/KILL_MATRIX.md
 echo "# Kill matrix of the seeded defects ($tier tier, VERIF_SEED=${VERIF_SEED:-0})"
 echo
 echo "Produced by tools/kill_matrix.sh: each patch is applied to a scratch worktree of /repo, a scratch copy of /verif is"
-echo "pointed at it, the check is run there. Seeds n = 1, 2 are the first round, n = 3, 4 the second."
+echo "pointed at it, the check is run there. Seeds n = 1, 2 are the first round, n = 3, 4 the second, n = 6, 7 the third;"
+echo "C16-5 replaces C16-1, which stopped being a defect when D17 was repaired."
 echo
 echo "| seed | check | result | wall | first detail |"
 echo "|---|---|---|---|---|"
